@@ -28,11 +28,41 @@ def mirror(s):
     return None if s is None else (mirror(s[1]), mirror(s[0]))
 
 
-def build_btn(s):
+def build_btn(s, same_id=False):
     from mathy_core.tree import BinaryTreeNode
     if s is None:
         return None
-    return BinaryTreeNode(build_btn(s[0]), build_btn(s[1]))
+    return BinaryTreeNode(build_btn(s[0], same_id), build_btn(s[1], same_id), id="same" if same_id else None)
+
+
+def build_uniform_expr(s):
+    """expression tree in which nothing but object identity distinguishes nodes of equal arity:
+    every leaf is the constant 4, every binary node an Add, every unary node a Negate, all ids equal"""
+    from mathy_core.expressions import AddExpression, NegateExpression, ConstantExpression
+    if s is None:
+        return None
+    l = build_uniform_expr(s[0])
+    r = build_uniform_expr(s[1])
+    if l is not None and r is not None:
+        n = AddExpression(l, r)
+    elif l is None and r is None:
+        n = ConstantExpression(4)
+    elif l is not None:
+        n = NegateExpression(l, child_on_left=True)
+    else:
+        n = NegateExpression(r, child_on_left=False)
+    n.id = "same"
+    return n
+
+
+def build(s, cls):
+    if cls == "btn":
+        return build_btn(s)
+    if cls == "btn_sameid":
+        return build_btn(s, True)
+    if cls == "uniform":
+        return build_uniform_expr(s)
+    return build_expr(s)
 
 
 def build_expr(s, counter=None):
